@@ -145,6 +145,15 @@ def work(args):
                     b = [kk * x for x in a]
                 va, vb = Vector(*[conv(tn, x) for x in a]), Vector(*[conv(tn, x) for x in b])
                 nrm = va.normalized()
+                # the constants must be what their names say on EVERY call: mutate the objects returned by one call (in place, and
+                # through a Line that keeps its support vector by reference and is then moved) before reading them again below
+                for fac in (Vector.zero, Vector.x_unit_vector, Vector.y_unit_vector, Vector.z_unit_vector):
+                    try:
+                        c_ = fac()
+                        c_[R.randrange(3)] = 7
+                        impl.Line(fac(), Vector(1, 2, 3)).move(Vector(2, -1, 5))
+                    except Exception:
+                        pass
                 rec.update(tn=tn, a=a, b=b, length=float(va.length()), nlen=float(nrm.length()), ncomp=[float(x) for x in nrm], unit=[float(x) for x in va.unit()],
                            angle=float(va.angle(vb)), self_angle=float(va.angle(va)), zero=[val(x) for x in Vector.zero()],
                            units=[[val(x) for x in v] for v in (Vector.x_unit_vector(), Vector.y_unit_vector(), Vector.z_unit_vector())])
